@@ -442,6 +442,36 @@ fn main() {
             );
         }
     }
+    // ---- long URLs: many path segments (around and beyond the tokenizer's 127-token cut-off) and long
+    // byte strings; rules with and without an index token (`*$removeparam=q` lives in the fallback bucket)
+    {
+        let rules: Vec<String> = vec!["*$removeparam=q".into(), "*$removeparam=a_b".into(), "||h.example.com^$removeparam=utm_source".into(), "/s3x/$removeparam=ref".into()];
+        let mut urls: Vec<String> = vec![];
+        for k in [10usize, 100, 120, 122, 124, 125, 126, 127, 128, 129, 150, 400] {
+            let segs: String = (0..k).map(|i| format!("s{}x", i)).collect::<Vec<_>>().join("/");
+            urls.push(format!("https://h.example.com/{}?q=1&keep=2&a_b=3&utm_source=z&ref=r#frag", segs));
+        }
+        for n in [1000usize, 2040, 2048, 2100, 5000, 70000] {
+            let payload: String = std::iter::repeat('a').take(n).collect();
+            urls.push(format!("https://h.example.com/s3x/p?payload={}&q=1&a_b=2&ref=3", payload));
+        }
+        for url in urls {
+            for mode in [0usize, 1] {
+                let Some((names, imp, got, _)) = eval(&rules, &url, "https://a.com/page", "xhr", mode, 0) else { continue };
+                let want = if imp { None } else { reference(&names, &url) };
+                sm.oracle_evaluations += 1;
+                cs.stat("long_url");
+                if got != want {
+                    // the request tokenizer stops after 127 tokens: a rule filed under a later token is not
+                    // found (known finding; 128 = 127 tokens + the fallback token 0)
+                    let beyond = Request::new(&url, "https://a.com/page", "xhr").map(|q| q.get_tokens().len() >= 128).unwrap_or(false);
+                    let class = if beyond { Some("C14_url_beyond_token_cutoff") } else { None };
+                    sm.failure(class, &format!("long URL ({} bytes): rewritten_url {:?} but the specification gives {:?}", url.len(), got.as_ref().map(|s| s.len()), want.as_ref().map(|s| s.len())),
+                        json!({"rules": rules, "url": url, "source": "https://a.com/page", "type": "xhr", "mode": mode, "batch": 0, "order": []}));
+                }
+            }
+        }
+    }
     cs.finish();
     sm.write(&a.out, &cs);
 }
